@@ -1,7 +1,7 @@
 (* Model/EntryHandlers.v — S-expression glue for Model/MetaHandlers.v *)
 From Coq Require Import String List Ascii NArith ZArith Bool.
 From LS Require Import Model.Bytes Model.Tags Gen.Consts Model.Sx Model.Codec Model.Readers Model.Writers
-                       Model.AriSpec Model.MetaHandlers Model.EntryWire Model.EntryReply.
+                       Model.AriSpec Model.MetaHandlers Model.Envelope Model.EntryWire Model.EntryReply.
 Import ListNotations.
 
 Definition sx_arg (a : arg) : sx :=
@@ -61,7 +61,26 @@ Definition e_meta_spec_calls (args : list sx) : sx :=
   | _ => sx_err "meta_spec_calls: arity"
   end.
 
+(* (envelope_reply <rid> <resp>) / (envelope_notify <ts> <ntfy>) -> (<message> <wire bytes>) *)
+Definition e_envelope_reply (args : list sx) : sx :=
+  match args with
+  | [SA rid; SA resp] => let m := reply_message rid resp in SL [SA m; SA (wire_message m)]
+  | _ => sx_err "envelope_reply: bad args"
+  end.
+
+Definition e_envelope_notify (args : list sx) : sx :=
+  match args with
+  | [ts; SA ntfy] =>
+      match un_Z ts with
+      | Some z => let m := notify_message z ntfy in SL [SA m; SA (wire_message m)]
+      | None => sx_err "envelope_notify: bad args"
+      end
+  | _ => sx_err "envelope_notify: bad args"
+  end.
+
 Definition entry_handlers (h : bytes) (args : list sx) : option sx :=
   if head_is "meta_handle" h then Some (e_meta_handle args)
   else if head_is "meta_spec_calls" h then Some (e_meta_spec_calls args)
+  else if head_is "envelope_reply" h then Some (e_envelope_reply args)
+  else if head_is "envelope_notify" h then Some (e_envelope_notify args)
   else None.
